@@ -1,6 +1,8 @@
 import GrinVerif.Drv.Common
 import GrinVerif.Model.Chain
 import GrinVerif.Model.ChainImpl
+import GrinVerif.Model.ChainFull
+import GrinVerif.Model.ChainInputs
 /-! Driver glue for the `chain` domain: block tree definitions shared by all subject chains,
 one model `Node` per subject. -/
 namespace GV.Drv.ChainD
@@ -54,6 +56,12 @@ def parseBlk (id : String) (args : List String) : Option Blk := do
   let tags := listItems (← kv args "tags")
   pure { id := bid, parent, h, work, ver, ts, ins, outs, kers, tags }
 
+/-- optional `inf=[o3:pl,o7:cb]`: the inputs come in features-and-commit form with these claims -/
+def parseClaims (args : List String) : Option (List (Nat × Bool)) :=
+  match kv args "inf" with
+  | none => some []
+  | some l => (listItems l).mapM parseOutRef
+
 def getNode (st : St) (s : String) : Option Node :=
   (st.nodes.find? (·.1 == s)).map fun x => { x.2 with outs := st.outs, blks := st.blks }
 
@@ -105,6 +113,28 @@ def cmpDeliver (model impl : String) : Verdict :=
   else if model.startsWith "err:" ∧ impl.startsWith "err:" then .diff model
   else .fail model
 
+/-- `chain fullval …`: the state described by its counts and the indices of its bad items, as the
+full validation sees it (`Model/ChainFull.lean`); only the total of the openings matters to the
+sums, so the first unspent output carries it -/
+def parseFull (p : Params) (rest : List String) : Option (FullState × Bool × Bool) := do
+  let n ← (← kv rest "n").toNat?
+  let fast ← kv rest "fast"
+  let k ← (← kv rest "K").toNat?
+  let u ← (← kv rest "U").toNat?
+  let gr ← kv rest "gr"
+  let voff ← (← kv rest "voff").toInt?
+  let blind ← kv rest "blind"
+  let sigbad ← (listItems (← kv rest "sigbad")).mapM String.toNat?
+  let proofbad ← (listItems (← kv rest "proofbad")).mapM String.toNat?
+  let ks : List KItem := (List.range k).map fun i => { sigBad := sigbad.contains i }
+  let s0 : FullState := { height := n, genesisHadReward := gr == "1" }
+  let total := (Int.ofNat (s0.supply p) + voff).toNat
+  let utxo : List OItem := (List.range u).map fun i =>
+    { v := if i == 0 then total else 0, proofBad := proofbad.contains i }
+  let s : FullState := { s0 with kernelMmr := kernelLayout ks, utxo,
+                                  blindFault := if blind == "1" then some "Committed:KernelSumMismatch" else none }
+  pure (s, fast == "1", !sigbad.isEmpty || !proofbad.isEmpty)
+
 def handle (st : St) (args : List String) (impl : String) : St × Verdict :=
   let p : Params := {}
   match args with
@@ -114,9 +144,9 @@ def handle (st : St) (args : List String) (impl : String) : St × Verdict :=
     | some id, some cb, some v => ({ st with outs := st.outs ++ [{ id, cb := cb == "1", v }] }, .ok)
     | _, _, _ => (st, .unknown)
   | "blk" :: b :: rest =>
-    match parseBlk b rest with
-    | some blk => ({ st with blks := st.blks ++ [blk] }, .ok)
-    | none => (st, .unknown)
+    match parseBlk b rest, parseClaims rest with
+    | some blk, some inf => ({ st with blks := st.blks ++ [blk.withInputFeatures st.outs inf] }, .ok)
+    | _, _ => (st, .unknown)
   | ["new", s] =>
     let S0 := match st.blks.find? (·.id == 0) with
       | some g => (match applyBlockImpl {} g with | .ok S => some S | .error _ => none)
@@ -134,16 +164,22 @@ def handle (st : St) (args : List String) (impl : String) : St × Verdict :=
       let (n', r) := deliverHeader p n blk
       (setNode st s n', cmpDeliver r impl)
     | _, _ => (st, .unknown)
-  | "txmat" :: s :: rest | "txlock" :: s :: rest | "txval" :: s :: rest =>
+  | "txmat" :: s :: rest | "txlock" :: s :: rest | "txval" :: s :: rest | "txins" :: s :: rest =>
     match getNode st s, kv rest "ins", kv rest "outs", kv rest "kers" with
     | some n, some i, some o, some k =>
       match (listItems i).mapM idOf, (listItems o).mapM idOf, (listItems k).mapM parseKer, n.stateAt p n.head with
       | some ins, some outs, some kers, .ok hs =>
         let t : TxA := { ins, outs, kers }
+        let claims : List (Nat × Option Bool) := match kv rest "inf" with
+          | none => ins.map (·, none)
+          | some l => match (listItems l).mapM parseOutRef with
+            | some c => c.map fun (i, f) => (i, some f)
+            | none => ins.map (·, none)
         let r := match args.head? with
           | some "txmat" => txMaturity p hs t
           | some "txlock" => txLock hs t
-          | _ => txValidate hs t
+          | some "txins" => validateInputsFC hs claims
+          | _ => txValidateFC hs t claims
         -- admission decisions are fixed by the property: accept / refuse is spec, the class internal
         let m := match r with | some e => s!"err:{e}" | none => "ok"
         (st, cmpDeliver m impl)
@@ -161,6 +197,22 @@ def handle (st : St) (args : List String) (impl : String) : St × Verdict :=
     match getNode st s with
     | some n => (setNode st s { n with orphans := [] }, cmpSpec "ok" impl)
     | none => (st, .unknown)
+  | "fullval" :: rest =>
+    match parseFull p rest with
+    | some (s, fast, itemFault) =>
+      let m := match validateFull p KERNEL_BATCH PROOF_BATCH s fast with
+        | none => "ok"
+        | some e => s!"err:{e}"
+      -- refusal of a bad state by the full validation, refusal of unbalanced sums by both, and
+      -- acceptance of honest states are fixed by the property; that the fast validation does not
+      -- look at signatures and proofs is the code's choice (internal)
+      (st, if fast && itemFault then cmpModel m impl else cmpDeliver m impl)
+    | none => (st, .unknown)
+  | ["untouched", _, _] =>
+    -- after a losing-fork or refused block: head / unspent set / roots, every byte of the txhashset
+    -- files, the database's view of the best chain, the data of best-chain outputs, full validation
+    -- and the stored sums are what they were (fixed by the property)
+    (st, cmpSpec "state=same,files=same,db=same,readback=same,validate=ok,sums=ok" impl)
   | ["compact", _] => (st, cmpSpec "ok" impl)
   | ["validate", _] => (st, cmpSpec "ok" impl)
   | _ => (st, .unknown)
